@@ -3,5 +3,8 @@ INVARIANT TypeOK
 INVARIANT DropInvisible
 INVARIANT HolesAreZero
 INVARIANT Deterministic
+INVARIANT MinusSafe
+INVARIANT MinusComplete
+INVARIANT MinusKeepsContent
 PROPERTY ReorgPreserves
 CHECK_DEADLOCK FALSE
